@@ -1,5 +1,6 @@
 import Hgxv.Proofs.C08Bfs
 import Hgxv.Proofs.C08Hist
+import Hgxv.Proofs.C08Nbrs
 /-! # C08 — degrees and connected components equal their combinatorial definitions
 
 Property theorems about the model `Hgxv/Model/C08.lean` (specification vocabulary `Adj`, `Reach`, `WF`, `Disj` in
@@ -173,6 +174,31 @@ theorem C08_count (nodes : List Nat) (es : List Edge) (f : Filt) (R : List Nat) 
     (hpair : R.Pairwise (fun a b => ¬ Reach es f a b)) (hcov : ∀ n ∈ nodes, ∃ r ∈ R, Reach es f r n) :
     numComponents nodes es f = R.length :=
   components_count nodes es f R hR hpair hcov
+
+/-- The two primitives of `hypergraph.py` that every C08 function reads.  `get_incident_edges(n, f)` lists exactly the
+filtered hyperedges containing `n` (each once when the container lists distinct hyperedges; `degree` is its length).
+`get_neighbors(n, f)` is exactly the set of the OTHER members of those hyperedges: it never contains `n` itself -
+whatever equal object denotes the node, labels enter only through `==` - and lists nobody twice.  No hypothesis. -/
+theorem C08_neighbors (es : List Edge) (f : Filt) (n : Nat) :
+    (∀ e, e ∈ incident es n f ↔ e ∈ es ∧ n ∈ e ∧ passes f e.length = true) ∧
+    (es.Nodup → (incident es n f).Nodup) ∧ deg es n f = (incident es n f).length ∧
+    (∀ v, v ∈ neighbors es f n ↔ v ≠ n ∧ ∃ e ∈ incident es n f, v ∈ e) ∧
+    n ∉ neighbors es f n ∧ (neighbors es f n).Nodup := by
+  refine ⟨mem_incident es f n, incident_nodup es f n, rfl, ?_, self_not_mem_neighbors es f n, neighbors_nodup es f n⟩
+  intro v
+  rw [mem_neighbors]
+  constructor
+  · rintro ⟨hne, e, he, hp, hn, hv⟩
+    exact ⟨hne, e, (mem_incident es f n e).mpr ⟨he, hn, hp⟩, hv⟩
+  · rintro ⟨hne, e, he, hv⟩
+    obtain ⟨he', hn, hp⟩ := (mem_incident es f n e).mp he
+    exact ⟨hne, e, he', hp, hn, hv⟩
+
+/-- non-vacuity: node 1 lies in a singleton hyperedge, a pair and a triple; with `size=1` it has an incident hyperedge
+and no neighbour, with `size=2` the neighbour 0, without a filter the neighbours 0, 2, 3 -/
+example : incident [[0, 1], [1], [1, 2, 3], [4]] 1 (.size 1) = [[1]] ∧ neighbors [[0, 1], [1], [1, 2, 3], [4]] (.size 1) 1 = []
+    ∧ neighbors [[0, 1], [1], [1, 2, 3], [4]] (.size 2) 1 = [0] ∧ neighbors [[0, 1], [1], [1, 2, 3], [4]] .none 1 = [0, 2, 3] := by
+  decide
 
 /-- A node is isolated (`is_isolated`, `isolated_nodes`) iff no filtered hyperedge of size ≥ 2 contains it, iff its
 reachability class is `{n}`, iff its connected component is the singleton `[n]`.
